@@ -2,7 +2,8 @@
 # MANIFEST.setup_cmd: offline, from files on disk only.  Parses every TLA+ module with SANY and
 # byte-compiles nothing (the harness runs with PYTHONDONTWRITEBYTECODE); fails if a module does not parse.
 cd "$(dirname "$0")" || exit 2
-rm -rf .work
+# scratch directories of runs that ended long ago (a check removes its own; never touch those of checks that may be running)
+[ -d .work ] && find .work -mindepth 1 -maxdepth 1 -mmin +720 -exec rm -rf {} + 2>/dev/null
 chmod +x check mutcheck 2>/dev/null
 fail=0
 for m in spec/*.tla; do
